@@ -892,6 +892,17 @@ class Weaver:
         self.drop_aids = drop_aids or {}
         w = Woven(group)
         self._template(os.path.join(self.verif, 'groups', group + '.rs'), w)
+        # Verus allows one module-level `broadcast use` per module: the one of prelude/std_str.rs is merged into the group's own
+        # (line count unchanged, the source map stays valid)
+        mine = [i for i, l in enumerate(w.lines) if l.startswith('broadcast use axs::group_str_patterns;')]
+        other = [i for i, l in enumerate(w.lines) if l.startswith('broadcast use') and i not in mine]
+        if mine and other:
+            w.lines[mine[0]] = '// (merged into the `broadcast use` below)'
+            l = w.lines[other[0]]
+            if l.startswith('broadcast use {'):
+                w.lines[other[0]] = 'broadcast use {axs::group_str_patterns, ' + l[len('broadcast use {'):]
+            else:
+                w.lines[other[0]] = 'broadcast use {axs::group_str_patterns, ' + l[len('broadcast use'):].strip().rstrip(';') + '};'
         for file, segs, fns in w.complete_checks:
             have = set(u['fn'] for u in w.units if u['file'] == file and [x.strip() for x in u['item'].split(' :: ')][:-1] == [x.strip() for x in segs])
             for n2, ln in fns:
